@@ -129,3 +129,23 @@ Example c06_parts_example :
   parts_of 7 2 2 (seq 0 7) = [[[0;1];[2;3]];[[4;5];[6]]]%nat /\
   parts_of 3 2 1 [2;0;1]%nat = [[[2;0];[1]]]%nat.
 Proof. vm_compute. repeat split; reflexivity. Qed.
+
+(* ---------- ties by translation (re-stated here so that THIS property's obligations break when the source they speak about
+   changes shape): gen/GenKernel.v and gen/GenLoops.v are regenerated from $VERIF_REPO/src on every run *)
+From MdpaxV Require Import Model.Skeleton Model.Kernel Model.KernelOps Model.Solvers Proofs.SkeletonP Proofs.GenKernelP.
+From MdpaxGen Require Import GenLoops GenKernel.
+
+(* the one-state update GENERATED from ValueIteration._calculate_updated_value (expectation over the event space with the
+   problem's own probabilities, maximum over the action space) is the Bellman optimality backup the theorems above use *)
+Theorem c06_generated_update_is_bellman_backup : forall (M : mdp) st g V, (0 < nA M)%nat ->
+  gen_calculate_updated_value (prims_of M) st (seq 0 (nA M)) (seq 0 (nE M)) g V = backup M g V st.
+Proof. exact gen_updated_value_is_backup. Qed.
+Print Assumptions c06_generated_update_is_bellman_backup.
+
+(* each solve() whose result this property speaks about = the interpretation of the skeleton translated from ITS source
+   (one step per pass, the stopping test, the periodic and the final save, the policy extraction) *)
+Theorem c06_savi_solve_follows_source : forall M g eps POL n mb d zidx pw pv perm t ckpt freq k st,
+  savi_solve M g eps POL n mb d zidx pw pv perm t ckpt freq k st =
+  run_skel savist savi_incr (savi_sweep_step M g eps n mb d zidx pw pv perm t) s_iter (savi_finish POL true) (fun s => s) ckpt freq savi_skel k st.
+Proof. exact savi_solve_is_skeleton. Qed.
+Print Assumptions c06_savi_solve_follows_source.
